@@ -140,6 +140,10 @@ def oracle(stream, header, ops, obs):
             if isinstance(r, dict):
                 return r
         elif name == "tarjan":
+            if any("tarjan-reused-state-mismatch" in x for x in g):
+                return bad(k, "tarjan-reused-state-gives-other-components-or-indices")
+            if any("tarjan_scc-vs-run-mismatch" in x for x in g):
+                return bad(k, "tarjan-scc-and-run-disagree-or-malformed")
             r = sccs_ok(k, g, "tarjan")
             if isinstance(r, dict):
                 return r
